@@ -109,7 +109,7 @@ func HarnessNoFalseAlarm() {
 		logs = append(logs, mkEntry(base+i, "e"))
 	}
 	cp := base + n
-	scenario := vrt.Choice("scenario", vrt.Param("scenarios", 6))
+	scenario := vrt.Param("scenario0", 0) + vrt.Choice("scenario", vrt.Param("scenarios", 7))
 	// leader A writes entries and (scenario permitting) the checkpoint
 	vrt.Assert("C16.leader-store-ok", A.ls.StoreLogs(logs) == nil)
 	cut := base + uint64(vrt.Choice("cut", int(n)+1)) - 1 // base-1: single batch
@@ -165,8 +165,33 @@ func HarnessNoFalseAlarm() {
 		vrt.Assert("C16.report-delivered", r != nil)
 		if r != nil {
 			vrt.Assert("C16.no-false-mismatch-after-tail-truncation", !isMismatch(r.Err))
+			vrt.Assert("C17.in-flight-blamed-only-when-written-differs", r.Err == nil || !strings.Contains(r.Err.Error(), "in-flight"))
 		}
 		vrt.Reach("leader-change")
+		return
+	case 6: // a tail truncation that ends exactly where the follower's running sum starts
+		// F holds everything up to and including A's checkpoint (its running sum restarts AT the
+		// checkpoint); B has the entries but not the checkpoint, restarts its middleware, becomes
+		// leader and writes from the checkpoint's index on; F drops just that one conflicting entry.
+		B := newNode("B", memstore.New())
+		vrt.Assert("C16.leader-store-ok", A.ls.StoreLog(cpEntry(cp, 5)) == nil)
+		vrt.Assert("C16.follower-store-ok", replicate(A, F, base, cp, cut, nil) == nil)
+		vrt.Quiesce() // F's verifier handles A's checkpoint now (otherwise the next report finds the queue full and is dropped by design)
+		vrt.Assert("C16.b-store-ok", replicate(A, B, base, cp-1, 0, nil) == nil)
+		B.start()
+		vrt.Assert("C16.b-store-ok", B.ls.StoreLogs([]*raft.Log{mkEntry(cp, "b"), mkEntry(cp+1, "b"), cpEntry(cp+2, 6)}) == nil)
+		vrt.Assert("C16.follower-delete-ok", F.ls.DeleteRange(cp, cp) == nil)
+		vrt.Assert("C16.follower-store-ok", replicate(B, F, cp, cp+2, cp+uint64(vrt.Choice("cutb", 3)), nil) == nil)
+		vrt.Quiesce()
+		r := lastReport(F)
+		vrt.Assert("C16.report-delivered", r != nil)
+		if r != nil {
+			vrt.Assert("C16.no-false-mismatch-after-truncation-at-range-start", !isMismatch(r.Err))
+			// C17, second sentence: F wrote exactly what B checksummed, so no in-flight blame
+			vrt.Assert("C17.in-flight-blamed-only-when-written-differs", r.Err == nil || !strings.Contains(r.Err.Error(), "in-flight"))
+			vrt.Assert("C16.range", r.Range.End == cp+2)
+		}
+		vrt.Reach("truncation-at-range-start")
 		return
 	case 5: // the LEADER's middleware restarted part-way through the interval: its checkpoint covers a shorter range than the follower has summed
 		A.start()
